@@ -30,6 +30,18 @@ class AnalysisError(Exception):
     """The analysis cannot decide (unknown shape, missing anchor).  Never a violation."""
 
 
+class AnchorRemoved(AnalysisError):
+    """An anchored construct is gone for a reason the analysis *does* recognise and that breaks every property anchored in it
+    (e.g. a later migration DROPs a trigger without re-creating it).  Reported as a violation of rule R0."""
+
+    def __init__(self, construct: str, message: str, file: str = '', line: int = 0):
+        super().__init__(message)
+        self.construct = construct
+        self.message = message
+        self.file = file
+        self.line = line
+
+
 def norm(text: str) -> str:
     """Normalise a statement/expression text for use in a finding key."""
     return re.sub(r'\s+', ' ', text).strip()
@@ -324,6 +336,14 @@ def run_property(pid: str, tier: str, fn: Callable[[Ctx], None]) -> int:
         if tier == 'thorough' and not OVERLAY:
             _mutation_battery(ctx)
         return ctx.finish()
+    except AnchorRemoved as e:
+        ctx.rule('R0', 'constructs the property is anchored in exist in the effective program', 0)
+        ctx.bad('R0', e.construct, e.message, e.file, e.line)
+        try:
+            return ctx.finish(aborted=f'stopped after: {e.message}')
+        except AnalysisError as e2:
+            print(f'ANALYSIS-ERROR property={pid}: {e2}')
+            return 2
     except AnalysisError as e:
         try:
             return ctx.finish(aborted=str(e))
